@@ -8,11 +8,13 @@ package verifharness
 import (
 	"bufio"
 	"bytes"
+	"context"
 	"encoding/json"
 	"fmt"
 	"math/big"
 	"math/rand"
 	"os"
+	"os/exec"
 	"reflect"
 	"sort"
 	"strconv"
@@ -305,7 +307,11 @@ func (o *fillOpt) fill(v reflect.Value, depth int) {
 		}
 		v.SetInt(x)
 	case reflect.String:
-		v.SetString(string(o.bytesVal()))
+		b := o.bytesVal()
+		if len(b) < tokMin && o.rnd.Intn(3) == 0 {
+			b = multibyte(len(b), o.rnd)
+		}
+		v.SetString(string(b))
 	case reflect.Ptr:
 		if depth >= o.maxDepth {
 			return
@@ -656,6 +662,122 @@ func (r *berRunner) decodeOnly(c BerCase, cls string, data []byte, t reflect.Typ
 		"tinfo": targetInfo(t), "params": params, "result": res})
 }
 
+// deepInputs: n repetitions of an empty constructed header, and n properly nested [0] wrappers around an INTEGER.
+func deepInputs(n int) map[string][]byte {
+	if n <= 0 {
+		n = 1500000
+	}
+	out := map[string][]byte{}
+	for name, h := range map[string][]byte{"a000": {0xa0, 0x00}, "3000": {0x30, 0x00}, "a080": {0xa0, 0x80}, "bf1f00": {0xbf, 0x1f, 0x00}} {
+		out[name] = bytes.Repeat(h, n)
+	}
+	// nested with exact lengths, built from the inside out (lengths stay below 2^24)
+	depth := n
+	if depth > 1200000 {
+		depth = 1200000
+	}
+	inner := []byte{0x02, 0x01, 0x05}
+	hdrs := make([][]byte, 0, depth)
+	l := len(inner)
+	for i := 0; i < depth; i++ {
+		var h []byte
+		switch {
+		case l < 0x80:
+			h = []byte{0xa0, byte(l)}
+		case l < 0x100:
+			h = []byte{0xa0, 0x81, byte(l)}
+		case l < 0x10000:
+			h = []byte{0xa0, 0x82, byte(l >> 8), byte(l)}
+		default:
+			h = []byte{0xa0, 0x83, byte(l >> 16), byte(l >> 8), byte(l)}
+		}
+		if l+len(h) >= 1<<24 {
+			break
+		}
+		hdrs = append(hdrs, h)
+		l += len(h)
+	}
+	nested := make([]byte, 0, l)
+	for i := len(hdrs) - 1; i >= 0; i-- {
+		nested = append(nested, hdrs[i]...)
+	}
+	out["nested"] = append(nested, inner...)
+	return out
+}
+
+// decodeChild runs one decode in a child process (vfh berchild) and records how the child ended.
+func (r *berRunner) decodeChild(c BerCase, cls string, data []byte, t reflect.Type, tname, params string) {
+	r.seq++
+	dir := os.Getenv("VF_TMP")
+	f, err := os.CreateTemp(dir, "deep")
+	res := "error"
+	if err == nil {
+		_, _ = f.Write(data)
+		_ = f.Close()
+		defer os.Remove(f.Name())
+		ctx, cancel := context.WithTimeout(context.Background(), 60*time.Second)
+		cmd := exec.CommandContext(ctx, os.Args[0], "berchild", tname, params, f.Name())
+		var stdout, stderr bytes.Buffer
+		cmd.Stdout, cmd.Stderr = &stdout, &stderr
+		runErr := cmd.Run()
+		timedOut := ctx.Err() == context.DeadlineExceeded
+		cancel()
+		line := strings.TrimSpace(stdout.String())
+		switch {
+		case timedOut:
+			res = "timeout"
+		case runErr == nil && (line == "RESULT ok" || line == "RESULT error"):
+			res = strings.TrimPrefix(line, "RESULT ")
+		case strings.HasPrefix(line, "RESULT panic"):
+			res = "panic"
+		default:
+			res = "crash"
+			for _, l := range strings.Split(stderr.String(), "\n") {
+				if strings.HasPrefix(l, "fatal error:") || strings.HasPrefix(l, "runtime:") {
+					res = "crash: " + strings.TrimSpace(l)
+					break
+				}
+			}
+		}
+	}
+	head := data
+	if len(head) > 6 {
+		head = head[:6]
+	}
+	r.emit(Node{"trace": c.ID, "seq": r.seq, "action": "decode", "cls": "deep", "input": cls, "size": len(data), "bytes": ints(head),
+		"target": tname, "tinfo": targetInfo(t), "params": params, "result": res})
+}
+
+// BerChild is the child side of decodeChild.
+func BerChild(tname, params, file string) error {
+	data, err := os.ReadFile(file)
+	if err != nil {
+		return err
+	}
+	prims := map[string]reflect.Type{
+		"int": reflect.TypeOf(int64(0)), "enum": asn.EnumeratedType, "bool": reflect.TypeOf(false),
+		"octets": asn.OctetStringType, "utf8": asn.UTF8StringType, "bits": asn.BitStringType,
+	}
+	t, ok := prims[tname]
+	if !ok {
+		t, ok = SchemaTypes[tname]
+	}
+	if !ok {
+		return fmt.Errorf("unknown target %s", tname)
+	}
+	val := reflect.New(t)
+	var derr error
+	res := guarded(45*time.Second, func() { derr = asn.UnmarshalWithParams(data, val.Interface(), params) })
+	switch {
+	case res == "" && derr != nil:
+		res = "error"
+	case res == "":
+		res = "ok"
+	}
+	fmt.Println("RESULT " + res)
+	return nil
+}
+
 var fuzzAlphabet = []byte{0x00, 0x01, 0x02, 0x03, 0x04, 0x05, 0x0A, 0x0C, 0x10, 0x16, 0x1F, 0x20, 0x30, 0x31, 0x7F, 0x80, 0x81, 0x82, 0x83, 0x84, 0x9F, 0xA0, 0xBF, 0xFF}
 
 func mutations(valid []byte, rnd *rand.Rand) map[string][][]byte {
@@ -759,7 +881,11 @@ func RunBer(in, out string) error {
 				ptr.Elem().SetBytes(patOrRand(n, rnd))
 			case "utf8":
 				n, _ := strconv.Atoi(c.Val)
-				ptr.Elem().SetString(string(patOrRand(n, rnd)))
+				b := patOrRand(n, rnd)
+				if n < tokMin && n > 1 {
+					b = multibyte(n, rnd) // character strings are measured in octets, not characters
+				}
+				ptr.Elem().SetString(string(b))
 			case "bits":
 				bl, _ := strconv.Atoi(c.Val)
 				b := make([]byte, (bl+7)/8)
@@ -864,6 +990,22 @@ func RunBer(in, out string) error {
 			} else {
 				rec([]byte{}, 0)
 			}
+		case "deep":
+			// inputs whose only remarkable property is size: hundreds of thousands of repeated or properly nested
+			// constructed headers.  A decoder whose recursion depth follows the input dies with a fatal (unrecoverable)
+			// stack overflow, so each decode runs in a child process and the child's fate is the result.
+			deepTargets := []string{"int", "bool", "utf8", "enum", "octets"}
+			deepSchema := []string{"CHFRecord", "CallDuration", "LocalSequenceNumber", "ManagementExtensions", "MultipleUnitUsage"}
+			for name, data := range deepInputs(c.N) {
+				for _, tn := range deepTargets {
+					r.decodeChild(c, "deep:"+name, data, prims[tn], tn, "")
+				}
+				for _, tn := range deepSchema {
+					if t, ok := SchemaTypes[tn]; ok {
+						r.decodeChild(c, "deep:"+name, data, t, tn, c.Params)
+					}
+				}
+			}
 		case "types":
 			names := make([]string, 0, len(SchemaTypes))
 			for n := range SchemaTypes {
@@ -875,6 +1017,20 @@ func RunBer(in, out string) error {
 		}
 	}
 	return nil
+}
+
+// multibyte returns exactly n octets of valid UTF-8 in which most characters take 2, 3 or 4 octets.
+func multibyte(n int, rnd *rand.Rand) []byte {
+	runes := []string{"\u00e9", "\u00eb", "\u6771", "\u4eac", "\u90fd", "\U0001F600", "z"}
+	var b []byte
+	for len(b) < n {
+		r := runes[rnd.Intn(len(runes))]
+		if len(b)+len(r) > n {
+			r = "z"
+		}
+		b = append(b, r...)
+	}
+	return b
 }
 
 func patOrRand(n int, rnd *rand.Rand) []byte {
